@@ -1,4 +1,16 @@
-from manifest_gen import claim, na
+CLAIMS = {}
+NA = {}
+
+
+def claim(pid, text, note, technique, design_ref):
+    CLAIMS[pid] = dict(text=text, note=note, technique=technique, design_ref=design_ref)
+    NA.pop(pid, None)
+
+
+def na(pid, reason):
+    if pid not in CLAIMS:
+        NA[pid] = reason
+
 
 ST = "static analysis: "
 
